@@ -56,6 +56,23 @@ impl RegistryCore {
                 return Err(Error::AlreadyReg);
             }
 
+            // A common label of this registry would be appended to samples
+            // that already carry a label of that name.
+            if let Some(ref labels) = self.labels {
+                let clash = desc
+                    .variable_labels
+                    .iter()
+                    .map(|n| n.as_str())
+                    .chain(desc.const_label_pairs.iter().map(|p| p.name()))
+                    .find(|n| labels.contains_key(*n));
+                if let Some(name) = clash {
+                    return Err(Error::Msg(format!(
+                        "label name {} of {:?} is also a common label of the registry",
+                        name, desc.fq_name
+                    )));
+                }
+            }
+
             if let Some(hash) = self
                 .dim_hashes_by_name
                 .get(&desc.fq_name)
